@@ -307,8 +307,20 @@ pub fn lift(i: &idl::Interface<'_>) -> RIface {
 // building zlink's description from the reference AST through the public (owned) constructors.
 // Strings are leaked: the harness builds a few hundred thousand short-lived descriptions at most.
 
+/// `'static` copies of the (few distinct) names and comment texts the harnesses use: interned, so
+/// that hundreds of millions of executions do not leak a string each.
 fn leak(s: &str) -> &'static str {
-    Box::leak(s.to_string().into_boxed_str())
+    thread_local! {
+        static INTERNED: std::cell::RefCell<std::collections::HashMap<String, &'static str>> = std::cell::RefCell::new(std::collections::HashMap::new());
+    }
+    INTERNED.with(|m| {
+        if let Some(x) = m.borrow().get(s) {
+            return *x;
+        }
+        let l: &'static str = Box::leak(s.to_string().into_boxed_str());
+        m.borrow_mut().insert(s.to_string(), l);
+        l
+    })
 }
 fn lower_comments(c: &[String]) -> Vec<idl::Comment<'static>> {
     c.iter().map(|x| idl::Comment::new(leak(x))).collect()
